@@ -14,6 +14,139 @@ static void add_both(vf::Plan &plan, const std::string &name, ref::Enc senc, con
     add_seq_stage(plan, name + " behind 16-unit prefix", senc, alpha, L, exact, ro, ascii_prefix(16));
 }
 
+
+// ---------------------------------------------------------------------------------------------- very large inputs
+// "every input of fewer than 256 Mi code units": uniform inputs whose *result* reaches or passes 256 MiB / 256 Mi units
+// while the input stays below the limit (the place where a size check on the wrong quantity would strike), and the
+// largest legal input of each width.  One conversion per case; input and result are checked at 4,096 sample positions
+// plus both ends.
+struct HugeCase {
+    const char *name;
+    int route;       // 0 l1->8, 1 16->8, 2 32->8, 3 8->16, 4 8->32, 5 l1->16, 6 l1->32, 7 16->32, 8 32->16, 9 8->l1, 10 w->8, 11 8->w
+    uint32_t cp;     // every input unit encodes this scalar value
+    uint64_t n_cps;  // number of scalar values
+    bool thorough_only;
+};
+static const uint64_t MI = 1ull << 20;
+static const HugeCase HUGE_CASES[] = {
+    {"latin_1_to_utf8: 128 Mi bytes E9 (result exactly 256 MiB)", 0, 0xE9, 128 * MI, false},
+    {"latin_1_to_utf8: 128 Mi - 1 bytes E9", 0, 0xE9, 128 * MI - 1, false},
+    {"utf16_to_utf8: 85.4 Mi units U+20AC (result just past 256 MiB)", 1, 0x20AC, 0x5555556, false},
+    {"utf32_to_utf8: 64 Mi units U+1F600 (result exactly 256 MiB)", 2, 0x1F600, 64 * MI, false},
+    {"utf8_to_utf16: 256 Mi - 1 ASCII bytes (largest legal input)", 3, 0x41, 256 * MI - 1, false},
+    {"utf8_to_latin_1: 256 Mi - 2 bytes of U+00E9", 9, 0xE9, 128 * MI - 1, false},
+    {"utf8_to_utf32: 256 Mi - 1 ASCII bytes", 4, 0x41, 256 * MI - 1, true},
+    {"latin_1_to_utf16: 256 Mi - 1 bytes", 5, 0xE9, 256 * MI - 1, true},
+    {"latin_1_to_utf32: 256 Mi - 1 bytes", 6, 0xE9, 256 * MI - 1, true},
+    {"utf16_to_utf32: 256 Mi - 1 units", 7, 0x20AC, 256 * MI - 1, true},
+    {"utf32_to_utf16: 128 Mi units U+1F600 (result 256 Mi units)", 8, 0x1F600, 128 * MI, true},
+    {"utf32_to_utf8: 256 Mi - 1 units U+0041", 2, 0x41, 256 * MI - 1, true},
+    {"utf16_to_utf8: 256 Mi - 1 units U+00E9 (result 512 MiB)", 1, 0xE9, 256 * MI - 1, true},
+    {"wchar_to_utf8: 64 Mi units U+1F600", 10, 0x1F600, 64 * MI, true},
+    {"utf8_to_wchar: 256 Mi - 4 bytes of U+1F600", 11, 0x1F600, 64 * MI - 1, true},
+};
+template <class T>
+static T *huge_map(uint64_t n)
+{
+    void *p = mmap(nullptr, (n + 1) * sizeof(T), PROT_READ | PROT_WRITE, MAP_PRIVATE | MAP_ANONYMOUS | MAP_NORESERVE, -1, 0);
+    if (p == MAP_FAILED) {
+        perror("mmap(huge input)");
+        _exit(2);
+    }
+    return (T *)p;
+}
+template <class T, class R>
+static std::string huge_compare(const ST::buffer<T> &got, const R &unit_at, uint64_t want_units)
+{
+    if (got.size() != want_units) return strf("size() is %zu, the reference transcoding has %llu units", got.size(), (unsigned long long)want_units);
+    if (got.data()[got.size()] != 0) return "no terminating NUL";
+    auto bad = [&](uint64_t i) { return (uint32_t)(typename std::make_unsigned<T>::type)got.data()[i] != unit_at(i); };
+    for (uint64_t k = 0; k < 4096 && k < want_units; ++k) {
+        uint64_t i = k < 64 ? k : k < 128 ? want_units - 1 - (k - 64) : (want_units / 4096) * k + (k % 7);
+        if (i >= want_units) continue;
+        if (bad(i)) return strf("unit %llu differs from the reference transcoding", (unsigned long long)i);
+    }
+    return "";
+}
+static void run_huge(Ctx &c, const HugeCase &h)
+{
+    U32V one8, one16;
+    encode_cps(U32V{h.cp}, ref::E8, one8);
+    encode_cps(U32V{h.cp}, ref::E16, one16);
+    const uint64_t n = h.n_cps, k8 = one8.size(), k16 = one16.size();
+    std::string problem;
+    vf::Outcome oc;
+    auto in8 = [&](uint64_t units) {
+        char *p = huge_map<char>(units);
+        for (uint64_t i = 0; i < units; ++i) p[i] = (char)one8[i % k8];
+        return p;
+    };
+    auto u8_at = [&](uint64_t i) { return one8[i % k8]; };
+    auto u16_at = [&](uint64_t i) { return one16[i % k16]; };
+    auto cp_at = [&](uint64_t) { return h.cp; };
+    void *inp = nullptr;
+    uint64_t inbytes = 0;
+    switch (h.route) {
+    case 0: case 5: case 6: {
+        char *p = huge_map<char>(n);
+        memset(p, (int)h.cp, n);
+        inp = p, inbytes = n + 1;
+        oc = vf::guard([&] {
+            if (h.route == 0) problem = huge_compare(ST::latin_1_to_utf8(p, n), u8_at, n * k8);
+            else if (h.route == 5) problem = huge_compare(ST::latin_1_to_utf16(p, n), cp_at, n);
+            else problem = huge_compare(ST::latin_1_to_utf32(p, n), cp_at, n);
+        });
+        break;
+    }
+    case 1: case 7: {
+        char16_t *p = huge_map<char16_t>(n * k16);
+        for (uint64_t i = 0; i < n * k16; ++i) p[i] = (char16_t)one16[i % k16];
+        inp = p, inbytes = (n * k16 + 1) * 2;
+        oc = vf::guard([&] {
+            if (h.route == 1) problem = huge_compare(ST::utf16_to_utf8(p, n * k16, ST::check_validity), u8_at, n * k8);
+            else problem = huge_compare(ST::utf16_to_utf32(p, n * k16, ST::check_validity), cp_at, n);
+        });
+        break;
+    }
+    case 2: case 8: {
+        char32_t *p = huge_map<char32_t>(n);
+        for (uint64_t i = 0; i < n; ++i) p[i] = (char32_t)h.cp;
+        inp = p, inbytes = (n + 1) * 4;
+        oc = vf::guard([&] {
+            if (h.route == 2) problem = huge_compare(ST::utf32_to_utf8(p, n, ST::check_validity), u8_at, n * k8);
+            else problem = huge_compare(ST::utf32_to_utf16(p, n, ST::check_validity), u16_at, n * k16);
+        });
+        break;
+    }
+    case 10: {
+        wchar_t *p = huge_map<wchar_t>(n);
+        for (uint64_t i = 0; i < n; ++i) p[i] = (wchar_t)h.cp;
+        inp = p, inbytes = (n + 1) * 4;
+        oc = vf::guard([&] { problem = huge_compare(ST::wchar_to_utf8(p, n, ST::check_validity), u8_at, n * k8); });
+        break;
+    }
+    default: {
+        char *p = in8(n * k8);
+        inp = p, inbytes = n * k8 + 1;
+        oc = vf::guard([&] {
+            if (h.route == 3) problem = huge_compare(ST::utf8_to_utf16(p, n * k8, ST::check_validity), u16_at, n * k16);
+            else if (h.route == 4) problem = huge_compare(ST::utf8_to_utf32(p, n * k8, ST::check_validity), cp_at, n);
+            else if (h.route == 11) problem = huge_compare(ST::utf8_to_wchar(p, n * k8, ST::check_validity), cp_at, n);
+            else problem = huge_compare(ST::utf8_to_latin_1(p, n * k8, ST::check_validity), cp_at, n);
+        });
+        break;
+    }
+    }
+    munmap(inp, inbytes);
+    VF_COUNT("ops");
+    VF_COUNT("validated");
+    c.nontrivial();
+    if (!oc.ok())
+        c.fail(strf("c03:huge-input:%s", oc.kind == vf::EX_ASSERT ? "assert" : vf::outkind_name(oc.kind)), strf("%s: %s", h.name, oc.str().c_str()));
+    else if (!problem.empty())
+        c.fail("c03:huge-input:wrong-result", strf("%s: %s", h.name, problem.c_str()));
+}
+
 static void build(vf::Plan &plan, const vf::Opts &o)
 {
     selftest();
@@ -23,7 +156,9 @@ static void build(vf::Plan &plan, const vf::Opts &o)
                         "reads before the input are only visible to ASan",
                         "writes outside a heap result are detected by the allocator's tail canary (and ASan); outside an in-object "
                         "result only by ASan",
-                        "reference size for assume_valid is the substitute_invalid size (the measuring pass is mode-independent)"};
+                        "reference size for assume_valid is the substitute_invalid size (the measuring pass is mode-independent)",
+                        "inputs between the sequence bounds and 256 Mi units are represented by uniform inputs at the sizes where the result crosses "
+                        "256 MiB / where the input is the largest legal one; their results are compared at 4,096 sample positions and both ends"};
     RunOpts all, prim;
     prim.primary_only = true;
     // the ASan+UBSan build of the thorough tier runs the quick bounds (~8x slower per case); the plain build the large ones
@@ -69,6 +204,16 @@ static void build(vf::Plan &plan, const vf::Opts &o)
                        return s;
                    });
     }
+#ifndef VF_ASAN
+    {
+        auto cases = std::make_shared<std::vector<HugeCase>>();
+        for (const HugeCase &h : HUGE_CASES)
+            if (!h.thorough_only || T) cases->push_back(h);
+        auto &st = plan.stage(strf("very large uniform inputs below 256 Mi units (%zu conversions, results up to 1 GiB)", cases->size()), cases->size(),
+                              [cases](uint64_t i, Ctx &c) { run_huge(c, (*cases)[i]); }, [cases](uint64_t i) { return std::string((*cases)[i].name); });
+        st.case_timeout_s = 120;
+    }
+#endif
     // (nullptr, 0) through every pointer+size route
     plan.stage("null pointer with zero length, every pointer+size entry point", 1,
                [](uint64_t, Ctx &c) {
